@@ -6,7 +6,7 @@ ASSUMPTIONS = ['server lists are statically configured (no dynamic placeholder) 
 RULE = ('all vectors of length 1..3 over 5 states x lost counts {0,1,2,8,15,16} (exhaustive), random vectors of length 4..6 over 0..16(+17,255), '
         'some with dynamic placeholders; distinct = distinct implementation observation lines')
 LOST = [0, 1, 2, 8, 15, 16]
-def generate(rng, tier):
+def generate_core(rng, tier):
     ops = []
     ents = ['%d:%d' % (s, l) for s in range(5) for l in LOST]
     for k in (1, 2):
@@ -36,3 +36,8 @@ def generate(rng, tier):
             v[rng.randrange(k)] = 'dyn'
         ops.append('op choose ' + ' '.join(v))
     return batch(ops, 'ch', 1000)
+
+def generate(rng, tier):
+    """the component-level cases, then the clause seen through the whole request/reply pipeline"""
+    import pipeline, focus
+    return generate_core(rng, tier) + focus.probe_reset_cases(rng, 300 if tier == 'thorough' else 20) + pipeline.cases(rng, 300 if tier == 'thorough' else 20, nops=12)
